@@ -660,6 +660,38 @@ def _conv(r, obs, lena):
                   "scale=True gave %r, histogram scale %r" % (g.scale(), h.scale()))
     else:
         obs.check(g.scale() == r["gscale"], "hist_to_graph-scale", "%r" % (g.scale(),))
+    # ---- a make_value that fails for one cell (next() on an exhausted iterator of per-bin
+    # corrections raises StopIteration): an error, never a graph with fewer points than cells
+    import lena.variables
+    for nok in sorted(set([0, len(ref) // 2])):
+        if nok >= len(ref):
+            continue
+
+        def mkf(nok=nok):
+            it = iter(range(nok))
+            return lambda v: (lena.flow.get_data(v) if not isinstance(v, (int, float)) else v,
+                              next(it))[0]
+        for route in ("function", "element"):
+            try:
+                if route == "function":
+                    gg = lena.structures.hist_to_graph(h, make_value=mkf(),
+                                                       get_coordinate=r["coord"])
+                    npts = len(gg.coords[0])
+                else:
+                    outv = list(lena.structures.HistToGraph(
+                        lena.variables.Variable("corr", mkf()),
+                        get_coordinate=r["coord"]).run(iter([(h, {})])))
+                    npts = len(outv[0][0].coords[0]) if outv and isinstance(
+                        outv[0][0], lena.structures.graph) else None
+            except (StopIteration, RuntimeError):
+                obs.count("make_value_failures_propagated")
+                continue
+            obs.check(npts == len(ref) or npts is None,
+                      "hist_to_graph-loses-cells:make_value-raises-StopIteration",
+                      "make_value raises StopIteration for cell no. %d of %d; %s returned a graph "
+                      "with %r point(s) instead of failing"
+                      % (nok, len(ref), "hist_to_graph" if route == "function" else
+                         "HistToGraph.run", npts))
     # ---- the three iterators agree with the index product (content, index, edges)
     ib = list(lena.structures.iter_bins(h.bins))
     obs.check(ib == [(idx, c) for idx, c, _ in ref], "iter_bins-differs",
@@ -892,6 +924,31 @@ def _csv(r, obs, lena):
             _judge_rows(obs, y[0].split("\n"), sep, _csv_expected(h, eff), eff, h,
                         "ToCSV:value-%d-of-a-flow-with-differing-context-options%s"
                         % (pos, vname))
+    # a run abandoned right after a value whose context overrides the option (next() once, then
+    # the generator is closed / dropped), then a new run of the same element: its own setting
+    for how in ("close", "drop", "throw"):
+        el3 = lena.output.ToCSV(separator=sep, duplicate_last_bin=dup)
+        g3 = el3.run(iter([(copy_hist(h, lena), {"output": {"duplicate_last_bin": not dup}}),
+                           copy_hist(h, lena)]))
+        first = next(g3)
+        if how == "close":
+            g3.close()
+        elif how == "throw":
+            try:
+                g3.throw(KeyError("consumer failed"))
+            except KeyError:
+                pass
+        del g3
+        res3 = list(el3.run(iter([copy_hist(h, lena)])))
+        obs.count("abandoned_csv_runs")
+        if len(res3) == 1 and isinstance(res3[0], tuple) and isinstance(res3[0][0], str):
+            _judge_rows(obs, res3[0][0].split("\n"), sep, _csv_expected(h, dup), dup, h,
+                        "ToCSV:run-after-an-abandoned-run-with-a-context-option")
+        else:
+            obs.fail("ToCSV-value-shape", "ToCSV yielded %r" % (res3,))
+        if isinstance(first, tuple) and isinstance(first[0], str):
+            _judge_rows(obs, first[0].split("\n"), sep, _csv_expected(h, not dup), not dup, h,
+                        "ToCSV:first-value-of-an-abandoned-run")
     obs.check((repr(h.edges), repr(h.bins)) == snapshot, "csv-modifies-histogram", "%r" % (h,))
     if nonzero(h) and ncell:
         obs.nontrivial = True
@@ -922,3 +979,6 @@ def _judge_rows(obs, body, sep, exp, dup, h, what):
 
 
 RULE += (' A third of the graphs use one list object for two fields; one ToCSV element runs over six histograms whose contexts carry differing duplicate_last_bin options.')
+RULE += (' Added: make_value functions that raise StopIteration for one cell (hist_to_graph must '
+         'fail, not return fewer points); a ToCSV run abandoned (closed / dropped / failed '
+         'consumer) right after a value with a context option, followed by a new run of the element.')
